@@ -272,6 +272,10 @@ def _iterteetext(table, source, encoding, errors, template, prologue, epilogue):
             try:
                 hdr = next(it)
             except StopIteration:
+                # no rows at all, write what totext() writes
+                if epilogue is not None:
+                    f.write(epilogue)
+                f.flush()
                 return
             yield tuple(hdr)
             flds = list(map(text_type, hdr))
